@@ -235,6 +235,38 @@ theorem attributes_agree (r : NameRow) (hr : r ∈ allRows) :
   obtain ⟨ht, _, hu, htop, hc⟩ := nameCheck_parts false r (every_name_resolves_correctly_partial r hr)
   exact ⟨hu, htop, hc, ht⟩
 
+/-- shadowing at top level is pinned to the documented list: every name of `unyt.unit_symbols` whose
+    top-level attribute is not a Unit is one of the hand-listed names of physical constants -/
+theorem shadowing_is_documented : ∀ n ∈ shadowedC, n ∈ Ref.C14.shadowedByConstants := by
+  intro n hn
+  have h := (by decide +kernel : namespacesClosed = true)
+  simp only [namespacesClosed, Bool.and_eq_true, List.all_eq_true] at h
+  exact memN_mem (h.1.1.1.2 n hn).2
+
+/-- every listed name that is not a documented name of a physical constant IS a unit attribute of
+    the top-level namespace: the live object carries the symbol of the `unit_symbols` object and the
+    model reads it as the reference reads the name — a unit attribute cannot vanish from `unyt.*` or
+    be rebound to a non-unit without failing this -/
+theorem top_level_unit_unless_documented_constant (r : NameRow) (hr : r ∈ allRows)
+    (hd : memN r.name Ref.C14.shadowedByConstants = false) :
+    memN r.name shadowedC = false ∧ r.topSym = symOf (unitSymbolsAttr ctxBits r.name)
+      ∧ ∃ k c, refVerdict r.name = .unique k c
+          ∧ readingMatches (topLevelAttr ctxBits shadowedC r.name) k c = true := by
+  have h := (attributes_agree r hr).2.1
+  unfold topOk at h
+  split at h
+  · simp only [Bool.and_eq_true] at h; rw [hd] at h; exact absurd h.2 (by simp)
+  · rename_i hm
+    cases hv : refVerdict r.name with
+    | unknown => simp [hv] at h
+    | ambiguous => simp [hv] at h
+    | unique k c =>
+      simp only [hv, Bool.and_eq_true] at h
+      have hm' : memN r.name shadowedC = false := by simpa using hm
+      refine ⟨hm', ?_, k, c, rfl, h.1⟩
+      have := Nat.eq_of_beq_eq_true h.2
+      simpa [topLevelAttr, hm'] using this
+
 /-- every guarded name really is unusable as a unit string: the guard cannot outlive the defect -/
 theorem exclusions_fail (r : NameRow) (hr : r ∈ allRows) (hg : excluded r.name = true) :
     stringReading ctxBits r.name = none := by
